@@ -96,7 +96,9 @@ def render_pgn(nodes, path, rng, gid, style="A"):
             toks.append("$%d" % rng.randint(1, 140))
         elif r < 0.20:
             toks.append("{%s}" % rng.choice(["good move", "book", "a plan: Nf3 and e4", "[%clk 0:05:00]", "comment with (parens)",
-                                             "book; eval +0.35", "white is better 1-0 soon", "see 12. Qd2 Nf6", "two\nlines"]))
+                                             "book; eval +0.35", "white is better 1-0 soon", "see 12. Qd2 Nf6", "two\nlines",
+                                             "st\u00e4rker w\u00e4re \u265e", "\u00f1and\u00fa \u2013 \u00e6\u00e6\u00e6",
+                                             "the game Spec - Engine ended 1-0\nafter 40 moves", "unclear *\n"]))
         elif r < 0.26 and k + 1 < len(path):
             alt = move_san(nodes, path, k)          # a variation that repeats the move (content is irrelevant: it must be dropped)
             toks.append("(%s %s (%s $2) )" % ("%d%s" % (k // 2 + 1, "." if k % 2 == 0 else "..."), alt, alt))
@@ -107,6 +109,9 @@ def render_pgn(nodes, path, rng, gid, style="A"):
     lines, cur = [], ""
     for t in toks:
         if len(cur) + len(t) > 70:
+            # a rest-of-line comment may end any line of the move text (outside braces), after ASCII or other text
+            if cur.count("{") == cur.count("}") and all(l_.count("{") == l_.count("}") for l_ in lines) and rng.random() < 0.15:
+                cur = cur.rstrip() + rng.choice([" ; rest of line", " ;Nf3 e4 1-0", " ; \u00fcber \u265e {", ";"]) + " "
             lines.append(cur.strip())
             cur = ""
         cur += t + " "
@@ -114,7 +119,7 @@ def render_pgn(nodes, path, rng, gid, style="A"):
             cur += "\n"                               # brace comments may span lines
     lines.append((cur + res).strip())
     body = "\n".join(lines)
-    extra = "% escaped line\n" if rng.random() < 0.2 else ""
+    extra = rng.choice(["% escaped line\n", "% escaped line, result 0-1\n"]) if rng.random() < 0.2 else ""
     trailer = " ; rest of line comment" if rng.random() < 0.2 else ""
     return "\n".join(tags) + trailer + "\n\n" + extra + body + "\n"
 
@@ -155,7 +160,7 @@ def book_run(text, fmt, cache=False, rounds=1, maxprocs=0, race=False, schedule=
     try:
         src = os.path.join(run, "book.txt")
         if text is not None:
-            with open(src, "w") as fh:
+            with open(src, "w", encoding="utf-8") as fh:
                 fh.write(text)
         if prefile is not None:
             with open(src + ".cache", "wb") as fh:
